@@ -589,10 +589,14 @@ func (m *PktModel) recvProbes(w *world.World, g Ghost, p packettypes.Packet, at 
 		orig, isKnown := g.find(q.SourceChain, q.DestinationChain, q.Sequence)
 		pr := Probe{Label: fmt.Sprintf("recv[%s]%s@%s", label, pid(p), at), Chain: at,
 			Msg: &packettypes.MsgRecvPacket{Packet: q, ProofCommitment: proof, ProofHeight: ph, Signer: signer}}
+		altered := isKnown && bytes.Equal(orig.P.Data, q.Data) && (orig.P.Port != q.Port || orig.P.RelayChain != q.RelayChain)
 		switch {
-		case !legit:
+		case !legit && !altered:
 			pr.MustFail, pr.Signature = "C01", "recv-accepted-without-commitment:"+label
-		case isKnown && (orig.P.Port != q.Port || orig.P.RelayChain != q.RelayChain):
+		case altered:
+			if !legit {
+				pr.AlsoFail = "C01"
+			}
 			alt := "port"
 			if orig.P.RelayChain != q.RelayChain {
 				switch {
@@ -745,10 +749,16 @@ func (m *PktModel) ackProbes(w *world.World, g Ghost, p packettypes.Packet, at s
 		if w.C(at).CleanPoint(q.SourceChain, q.DestinationChain) >= q.Sequence {
 			pr.AlsoFail = "C10"
 		}
+		altered := isKnown && bytes.Equal(orig.P.Data, q.Data) && (orig.P.Port != q.Port || orig.P.RelayChain != q.RelayChain)
 		switch {
-		case !legit:
+		case !legit && !altered:
 			pr.MustFail, pr.Signature = "C03", "ack-accepted-without-basis:"+label
-		case isKnown && (orig.P.Port != q.Port || orig.P.RelayChain != q.RelayChain):
+		case altered:
+			if !legit {
+				if pr.AlsoFail == "" {
+					pr.AlsoFail = "C03"
+				}
+			}
 			alt := "port"
 			if orig.P.RelayChain != q.RelayChain {
 				switch {
